@@ -449,7 +449,15 @@ impl Partition {
                     self.partition_id
                 );
 
-                last_segment.persist_messages(confirmation).await.unwrap();
+                last_segment
+                    .persist_messages(confirmation)
+                    .await
+                    .with_error_context(|error| {
+                        format!(
+                            "{COMPONENT} (error: {error}) - failed to persist messages, partition: {}",
+                            self.partition_id
+                        )
+                    })?;
                 self.unsaved_messages_count = 0;
             }
         }
@@ -476,8 +484,12 @@ impl Partition {
 
         // Make sure all of the messages from the accumulator are persisted
         // no leftover from one round trip.
-        while last_segment.unsaved_messages.is_some() {
-            last_segment.persist_messages(None).await.unwrap();
+        while last_segment
+            .unsaved_messages
+            .as_ref()
+            .is_some_and(|unsaved_messages| !unsaved_messages.is_empty())
+        {
+            last_segment.persist_messages(None).await?;
         }
         self.unsaved_messages_count = 0;
         Ok(())
